@@ -138,7 +138,7 @@ class ConfigList(ComposedNode, list):
 
     @namespace('ayns')
     def on_merge_impl(self, prefix, other):
-        if isinstance(other, dict):
+        if isinstance(other, dict) and not other.ayns.delete:
             _missing_keys = []
             for key in other.ayns.children_names():
                 first_missing = None
